@@ -20,11 +20,11 @@ def run(ctx):
         ins = proggen.INPUTS + ['(x 3)', f'(l (p (s {symbol_value("a")}) (x 3)) (p (s {symbol_value("x")}) (i 1)))']
         for src, ast, root, stream in progs:
             f = proggen.features(root)
-            if stream == 'random' and not any(k in f for k in ('id', 'bin:Apply', 'applyto', 'suf')):
-                continue
+            if stream in ('random', 'pairs', 'logic', 'loops') and not any(k in f for k in ('id', 'bin:Apply', 'applyto', 'suf')):
+                continue      # no identifier, application or external involved: nothing for this property to observe
             for st in progsuite.STORES:
                 for host in progsuite.HOSTS:
-                    meta[progsuite.prog_case(cases, st, src, rnd.choice(ins), host, ast)] = stream
+                    meta[progsuite.prog_case(cases, st, src, rnd.choice(proggen.LOOP_INPUTS if stream == 'loops' else ins), host, ast)] = stream
         # identifiers / externals at every operand position of small templates
         templates = ['%s', '%s + 1', '1 + %s', '%s %s', '(%s, 2)', '%s = 1', '1 = %s', '() ?> %s', '1 ?> %s', '%s ?> 2', '() ?> 1 |> %s', '1 ?> %s |> 3',
                      '() && %s', '1 && %s', '1 || %s', '() || %s', '{ %s } ~~', '{ $ } <~ %s', '%s <~ 5', '5 ~> %s', '%s ~~', '1 [%s]', '%s ; %s', '{ %s } <~ 1 ; %s',
